@@ -99,6 +99,7 @@ items += [
     RawFile(os.path.join(HERE, '..', 'common', 'dfa_match.rs'), 'dfa_match.rs'),
     RawFile('build_lang.rs'),
     RawFile('build_cls.rs'),
+    RawFile('build_empty.rs'),
     RawFile(os.path.join(HERE, '..', 'common', 'scanner_wf.rs'), 'scanner_wf.rs'),
     RawFile('build_spec.rs'),
     Raw('''
